@@ -48,7 +48,8 @@ def handle (op : String) (args : List String) (impl : String) : Verdict :=
     | some _, [x, y] =>
       match parseDec? x, parseDec? y with
       | some x, some y =>
-        let ok := decide (y = x.neg)
+        let ok := Spec.valueEq y x.neg   -- equality of decimals is equality of values (PartialEq); the
+        -- one-shortcut returns its operand's representation, the general path a p-digit one
         { model := "", mi := ok, si := ok, tag := "mirror", note := if ok then "" else "inverse(-x) under the mirrored mode is not -inverse(x)" }
       | _, _ => badInput "mirror impl"
     | _, _ => badInput "mirror args"
